@@ -37,6 +37,8 @@ inductive Op (τ : Type)
   | not | boolAnd | boolOr
   | numEq | numNe | equal | notEqual | lt | le | gt | ge
   | throw                  -- THROW: without a TRY context (the core has none) the exception is unhandled, FAULT
+  | pack                   -- PACK: only emitted by dropItems for ≥ 4 items (codegen.go:1899-1909); encoded and decoded,
+                           -- NOT executed by this machine (no Array items): it FAULTs, the theorems stay below 4 items
   deriving Repr, DecidableEq
 
 /-- Element.BigInt(): Integer as is, Boolean as 0/1, Null is an error. -/
@@ -292,6 +294,7 @@ def encode (long : Bool) : Op Int → Bytes
   | .numEq => [0xB3] | .numNe => [0xB4] | .equal => [0x97] | .notEqual => [0x98]
   | .lt => [0xB5] | .le => [0xB6] | .gt => [0xB7] | .ge => [0xB8]
   | .throw => [0x3A]
+  | .pack => [0xC0]
 
 def leInt (bs : Bytes) : Int :=
   let n : Nat := bs.foldr (fun b acc => acc * 256 + b.toNat) 0
@@ -346,6 +349,7 @@ def decode (bs : Bytes) : Option (Op Int × Nat) :=
     else if o == 0xB6 then some (.le, 1) else if o == 0xB7 then some (.gt, 1)
     else if o == 0xB8 then some (.ge, 1)
     else if o == 0x3A then some (.throw, 1)
+    else if o == 0xC0 then some (.pack, 1)
     else none
 
 /-- one step of the byte machine (vm.go step/execute): jump offsets are relative to the instruction's own
